@@ -1003,4 +1003,557 @@ example : Est H Pc klx sel .v1 k0 hpC hpS false (afterTls (params H Pc klx) sHel
     (by decide) keylogHas rfl ⟨rfl, rfl, rfl, rfl⟩).2.1
 
 end Ex
+/-! ## the handshake -/
+
+section LongStep
+variable {σ : Type} (P : Params σ)
+
+/-- `handle_quic_packet` after `decrypt_packet` for an Initial packet (CID learning), nothing for the other levels -/
+def postLevel (lv : Level) (s : St σ) (p : Pkt) : St σ := if lv = .initial then learnCids s p else s
+
+/-- One Initial / Handshake / 0-RTT packet of a conformant sender whose level's decryptor `d` is installed, for ANY
+    parameters: `decrypt_packet` + the bookkeeping of `handle_quic_packet` IS `handle_frame` over the sender's frames
+    (then the CID learning of an Initial). Everything that depends on the TLS parser is inside `handleFrames`. -/
+theorem step_long_eq (L : SealLaws P.prims) (x : SPkt) (d : Dec) (k : DirKeys) (s : St σ)
+    (hne : x.level ≠ .oneRtt) (hdec : longDecryptor s x.level.ptype = .ok (some d))
+    (hdir : (if x.srv then d.server else some d.client) = some k)
+    (hk : AeadOk d.alg k.key.length k.iv.length 16) (hiv : 8 ≤ k.iv.length)
+    (hpn : PnLenOk (pnLargest s x.srv (spaceOf x.level)) x.pn x.pnLen) (hwf : WellFormedSeq x.frames) :
+    let p := emit L.aeadSeal d.alg k x
+    let r := handleFrames P (pnStore s x.srv (spaceOf x.level) (max (pnLargest s x.srv (spaceOf x.level)) x.pn)) p
+      ((normalize x.frames).map QFrame.toParsed)
+    stepPkt P s p = { st := postLevel x.level r.1 p, caught := r.2, escaped := none } := by
+  intro p r
+  have hh : p.htype = .long := by simp [p, emit, hne]
+  have ht : p.ptype = x.level.ptype := by simp [p, emit, hne]
+  have hsrv : p.isServer = x.srv := by simp [p, emit, hne]
+  have hpnb : p.pn = some (pnBytes x.pnLen x.pn) := by simp [p, emit, hne]
+  have hpl : p.payload = some (L.aeadSeal d.alg k.key (nonce k.iv x.pn) (header x) 16 (encodeAll x.frames)) := by
+    simp [p, emit, hne, protectedPayload]
+  have haad : assocData p = .ok (header x) := assocData_emit _ _ _ _
+  have hsp : p.ptype.space = some (spaceOf x.level) := by
+    rw [ht]; cases hl : x.level <;> simp_all [Level.ptype, PType.space, spaceOf]
+  have hattr : hasPnAttr p = true := by
+    unfold hasPnAttr; rw [hh, ht]; cases hl : x.level <;> simp_all [Level.ptype]
+  have hnr : p.ptype ≠ .retry := by rw [ht]; cases hl : x.level <;> simp [Level.ptype]
+  have hnv : p.ptype ≠ .versionNeg := by rw [ht]; cases hl : x.level <;> simp [Level.ptype]
+  have hsel : selectDecryptor P s p = (s, .ok (some d)) := by
+    simp only [selectDecryptor, hh, ht, hdec]
+  have hdp : decryptPacket P s p = decryptRest P s p (some d) := by simp [decryptPacket, hsel]
+  have hrest := decryptRest_emitted P L s p d k (spaceOf x.level) _ x.pn x.pnLen (header x) x.frames
+    (by rw [hsrv]; exact hdir) hsp hattr (by rw [hsrv]) hpnb hpn haad hpl hwf hk hiv
+  rw [hsrv] at hrest
+  have hdp' : decryptPacket P s p = r := by rw [hdp, hrest]
+  simp only [stepPkt, hnr, hnv, ne_eq, not_false_eq_true, and_self, if_true, afterDecrypt, if_false, hdp', hh]
+  unfold postLevel
+  by_cases hi : x.level = .initial
+  · have : p.ptype = .initial := by rw [ht, hi]; rfl
+    simp [hi, this]
+  · have : p.ptype ≠ .initial := by rw [ht]; cases hl : x.level <;> simp_all [Level.ptype]
+    simp [hi, this]
+
+end LongStep
+/-! ### the handshake in the composed session: invariants -/
+
+section HsInv
+variable (H : Crypto.Prims) (Pc : Cipher.Prims)
+
+/-- the Handshake decryptor RFC 9001 §5.1 gives for the two handshake traffic secrets -/
+def hsDec (sel : SuiteSel) (sh ch : Bytes) : Dec :=
+  { alg := sel.alg,
+    server := some ⟨quicKey (hashOf H sel.hash) sh sel.keyLen, quicIv (hashOf H sel.hash) sh⟩,
+    client := ⟨quicKey (hashOf H sel.hash) ch sel.keyLen, quicIv (hashOf H sel.hash) ch⟩ }
+
+/-- the Initial decryptor RFC 9001 §5.2 gives for the client's first Destination Connection ID -/
+def initDec (dcid0 : Bytes) : Dec :=
+  { alg := .aesgcm,
+    server := some ⟨(quicInitialServerKeys H.sha256 dcid0).key, (quicInitialServerKeys H.sha256 dcid0).iv⟩,
+    client := ⟨(quicInitialClientKeys H.sha256 dcid0).key, (quicInitialClientKeys H.sha256 dcid0).iv⟩ }
+
+/-- `set_tls_decryptors` ran for the connection's suite with the connection's key-log lines: Handshake and generation-0
+    Application decryptors and the four header-protection keys are RFC 9001 §5.1's -/
+structure Keyed (sel : SuiteSel) (ch sh ca sa : Bytes) (s : St Tls) : Prop where
+  suite : s.suite = some sel
+  hs : s.decHandshake = some (hsDec H sel sh ch)
+  app : s.decApp = some [(rfcGen (hashOf H sel.hash) sel.keyLen sa ca 0).toDec sel.alg]
+  hpSH : s.tls.hp.serverHandshake = some (quicHp (hashOf H sel.hash) sh sel.keyLen)
+  hpCH : s.tls.hp.clientHandshake = some (quicHp (hashOf H sel.hash) ch sel.keyLen)
+  hpSA : s.tls.hp.serverApplication = some (quicHp (hashOf H sel.hash) sa sel.keyLen)
+  hpCA : s.tls.hp.clientApplication = some (quicHp (hashOf H sel.hash) ca sel.keyLen)
+
+/-- what no handshake step changes (before the first 1-RTT packet): version and stamp, the Initial decryptor and
+    header-protection keys of the first DCID, epochs and key phases at their initial values, nothing decrypted in the
+    application packet-number space, nothing in `output_buffer` that is exported without `-a` -/
+structure HsInv (dcid0 : Bytes) (s : St Tls) : Prop where
+  version : s.version = .v1
+  ver : s.tls.ver = s.version
+  init : s.decInitial = some (initDec H dcid0)
+  hpSI : s.tls.hp.serverInitial = some (quicInitialServerKeys H.sha256 dcid0).hp
+  hpCI : s.tls.hp.clientInitial = some (quicInitialClientKeys H.sha256 dcid0).hp
+  ec : s.epochClient = 0
+  es : s.epochServer = 0
+  lpc : s.lastPhaseClient = some 0
+  lps : s.lastPhaseServer = some 0
+  out : ∀ o ∈ s.out, UdpOut.exported false (frameOf o) = none
+
+/-- the parser part of a `QuicTlsSession` (the adapter fields set to their defaults) -/
+def coreOf (t : Tls) : Tls := { t with ver := .unknown, hp := {} }
+
+def clearND (t : Tls) : Tls := { t with msgs := { t.msgs with newData := false } }
+
+theorem tlsUpdate_core (t : Tls) (c : CryptoIn) :
+    tlsUpdate t c = ({ (tlsUpdate (coreOf t) c).1 with ver := t.ver, hp := t.hp }, (tlsUpdate (coreOf t) c).2) := by
+  unfold tlsUpdate coreOf
+  split <;> rfl
+
+/-- `set_tls_decryptors` as `handle_crypto_frame` calls it during a handshake, with the connection's lines in the key log:
+    it never raises, clears `new_data`, leaves everything `HsInv` and the bookkeeping speak about alone, and — when the
+    suite is the connection's — installs the RFC keys (`Keyed`), whatever was installed before (idempotent). -/
+theorem afterTls_hs (kl : List Keylog.Key) (s : St Tls) (cr cs ch sh ca sa : Bytes) (early : Option Bytes)
+    (hv1 : s.version = .v1) (hv : s.tls.ver = s.version)
+    (hn : s.tls.msgs.newData = true) (hcr : s.tls.msgs.clientRandom = some cr) (hcs : s.tls.msgs.ciphersuite = some cs)
+    (hkl : KeylogHas kl cr ch sh ca sa early) :
+    (afterTls (params H Pc kl) s).2 = none ∧
+    (∀ sel, selectSuite cs = some sel → Keyed H sel ch sh ca sa (afterTls (params H Pc kl) s).1) ∧
+    (afterTls (params H Pc kl) s).1.version = s.version ∧ (afterTls (params H Pc kl) s).1.decInitial = s.decInitial ∧
+    (afterTls (params H Pc kl) s).1.epochClient = s.epochClient ∧ (afterTls (params H Pc kl) s).1.epochServer = s.epochServer ∧
+    (afterTls (params H Pc kl) s).1.lastPhaseClient = s.lastPhaseClient ∧
+    (afterTls (params H Pc kl) s).1.lastPhaseServer = s.lastPhaseServer ∧
+    (afterTls (params H Pc kl) s).1.pnClient = s.pnClient ∧ (afterTls (params H Pc kl) s).1.pnServer = s.pnServer ∧
+    (afterTls (params H Pc kl) s).1.clientCids = s.clientCids ∧ (afterTls (params H Pc kl) s).1.serverCids = s.serverCids ∧
+    (afterTls (params H Pc kl) s).1.out = s.out ∧ (afterTls (params H Pc kl) s).1.tls.ver = s.tls.ver ∧
+    (afterTls (params H Pc kl) s).1.tls.hp.serverInitial = s.tls.hp.serverInitial ∧
+    (afterTls (params H Pc kl) s).1.tls.hp.clientInitial = s.tls.hp.clientInitial ∧
+    coreOf (afterTls (params H Pc kl) s).1.tls = clearND (coreOf s.tls) := by
+  have e1 : (params H Pc kl).tlsNewData s.tls = true := hn
+  have e2 : (params H Pc kl).tlsClientRandom s.tls = some cr := hcr
+  have e3 : (params H Pc kl).tlsCiphersuite s.tls = some cs := hcs
+  unfold afterTls
+  simp only [e1, if_true, e2, e3, setTlsDecryptors]
+  cases hsel : selectSuite cs with
+  | none =>
+    simp [params, tlsClearNewData, hcr, hcs, hsel, coreOf, clearND]
+  | some sel =>
+    have hk : sel.keyLen < 65536 := by
+      unfold selectSuite at hsel
+      repeat' split at hsel
+      all_goals first
+        | (cases hsel; decide)
+        | (simp at hsel)
+    obtain ⟨k, hdq, k1, k2, k3, k4, k5, k6, k7⟩ := devQuic_rfc H kl sel hk cr ch sh ca sa early hkl
+    have hdq' : devQuic H kl sel s.version cr = .ok k := by rw [hv1]; exact hdq
+    have e4 : (params H Pc kl).devQuicKeys sel s.version cr = .ok (groupsOf k) := by
+      show (devQuic H kl sel s.version cr).map groupsOf = _
+      rw [hdq']; rfl
+    simp only [e4]
+    cases hke : k.clientEarly <;>
+      (refine ⟨trivial, ?_, ?_, ?_, ?_, ?_, ?_, ?_, ?_, ?_, ?_, ?_, ?_, ?_, ?_, ?_, ?_⟩ <;>
+        first
+        | (intro sel' hs'; cases hs'
+           refine ⟨?_, ?_, ?_, ?_, ?_, ?_, ?_⟩ <;>
+           simp [installGroups, groupsOf, hke, params, tlsClearNewData, hcr, hcs, hsel, hv, hdq', AppKeys.toDec, hsDec,
+             rfcGen, quicGeneration, k1, k2, k3, k4, k5, k6, dirOf, tripleSpec, quicPacketKeys, HpKeys.withTls])
+        | simp [installGroups, groupsOf, hke, params, tlsClearNewData, hcr, hcs, hsel, hv, hdq', coreOf, clearND,
+            HpKeys.withTls])
+
+end HsInv
+
+section HsFrames
+variable (H : Crypto.Prims) (Pc : Cipher.Prims)
+
+/-- LOCAL parser hypothesis: what the concrete `QuicTlsSession` does on the CRYPTO inputs of THIS history, in processing
+    order, starting from parser state `t`: `update_session` never raises; whenever it leaves `new_data` set, the client
+    random is the connection's and the cipher suite is the selected one `csel` — except after a CRYPTO frame of a client
+    Initial packet (the ClientHello: first offered suite). `new_data` is cleared between the inputs (`handle_crypto_frame`). -/
+def PTrace (cr csel : Bytes) : Tls → List CryptoIn → Prop
+  | _, [] => True
+  | t, c :: rest =>
+    (tlsUpdate t c).2 = none ∧
+    ((tlsUpdate t c).1.msgs.newData = true →
+      (tlsUpdate t c).1.msgs.clientRandom = some cr ∧
+      ∃ cs, (tlsUpdate t c).1.msgs.ciphersuite = some cs ∧ (¬ (c.isServer = false ∧ c.ptype = .initial) → cs = csel)) ∧
+    PTrace cr csel (clearND (tlsUpdate t c).1) rest
+
+/-- the session during the handshake: `HsInv`, no pending `new_data`, parser part `core`, packet-number tables, CID sets,
+    and — once `keyed` — the RFC keys of the selected suite -/
+structure HsSt (dcid0 : Bytes) (sel : SuiteSel) (ch sh ca sa : Bytes) (keyed : Bool) (s : St Tls) (tc ts : PnTab)
+    (cc sc : List Bytes) (core : Tls) : Prop where
+  inv : HsInv H dcid0 s
+  nd : s.tls.msgs.newData = false
+  core : coreOf s.tls = core
+  pc : s.pnClient = tc
+  ps : s.pnServer = ts
+  cc : s.clientCids = cc
+  sc : s.serverCids = sc
+  keyed : keyed = true → Keyed H sel ch sh ca sa s
+
+theorem coreOf_idem (t : Tls) : coreOf (coreOf t) = coreOf t := rfl
+
+theorem coreOf_fix (t : Tls) (h1 : t.ver = .unknown) (h2 : t.hp = {}) : coreOf t = t := by
+  cases t; simp_all [coreOf]
+
+theorem tlsUpdate_ver_hp (t : Tls) (c : CryptoIn) : (tlsUpdate t c).1.ver = t.ver ∧ (tlsUpdate t c).1.hp = t.hp := by
+  unfold tlsUpdate; split <;> exact ⟨rfl, rfl⟩
+
+theorem coreOf_with (t : Tls) (v : Version) (h : HpKeys) : coreOf { t with ver := v, hp := h } = coreOf t := rfl
+
+theorem handleCrypto_hs (kl : List Keylog.Key) (dcid0 cr csel ch sh ca sa : Bytes) (early : Option Bytes) (sel : SuiteSel)
+    (hsel : selectSuite csel = some sel) (hkl : KeylogHas kl cr ch sh ca sa early)
+    (keyed : Bool) (s : St Tls) (tc ts : PnTab) (cc sc : List Bytes) (core : Tls)
+    (hst : HsSt H dcid0 sel ch sh ca sa keyed s tc ts cc sc core) (p : Pkt) (f : Frame.Parsed)
+    (hf : isCryptoP f = true) (c : CryptoIn) (rest : List CryptoIn)
+    (htr : PTrace cr csel core (c :: rest))
+    (hcl : keyed = true → ¬ (c.isServer = false ∧ c.ptype = .initial)) :
+    (handleCrypto (params H Pc kl) s p f c).2 = none ∧
+    HsSt H dcid0 sel ch sh ca sa keyed (handleCrypto (params H Pc kl) s p f c).1 tc ts cc sc
+      (clearND (tlsUpdate core c).1) ∧
+    ((tlsUpdate core c).1.msgs.newData = true → ¬ (c.isServer = false ∧ c.ptype = .initial) →
+      Keyed H sel ch sh ca sa (handleCrypto (params H Pc kl) s p f c).1) ∧
+    PTrace cr csel (clearND (tlsUpdate core c).1) rest := by
+  obtain ⟨t1, t2, t3⟩ := htr
+  obtain ⟨hinv, hnd, hcore, hpc, hps, hcc, hsc, hkeyed⟩ := hst
+  have hup := tlsUpdate_core s.tls c
+  rw [hcore] at hup
+  have hfix : coreOf (tlsUpdate core c).1 = (tlsUpdate core c).1 := by
+    obtain ⟨q1, q2⟩ := tlsUpdate_ver_hp core c
+    apply coreOf_fix
+    · rw [q1, ← hcore]; rfl
+    · rw [q2, ← hcore]; rfl
+  generalize hu : tlsUpdate core c = u at hup t1 t2 t3 hfix ⊢
+  obtain ⟨ut, ue⟩ := u
+  simp only at t1 t2 t3 hup hfix ⊢
+  subst t1
+  have hfo : ∀ o, o = mkOut p f → UdpOut.exported false (frameOf o) = none := by
+    intro o ho; subst ho
+    cases f <;> simp [isCryptoP] at hf
+    simp [mkOut, frameOf, UdpOut.exported, UdpOut.isStream]
+  have hPup : (params H Pc kl).tlsUpdate s.tls c = ({ ut with ver := s.tls.ver, hp := s.tls.hp }, none) := hup
+  unfold handleCrypto
+  rw [hPup]
+  simp only
+  by_cases hn : ut.msgs.newData = true
+  · -- a hello was completed: set_tls_decryptors
+    obtain ⟨hcr, cs, hcs, hcsel⟩ := t2 hn
+    have a := afterTls_hs H Pc kl { s with tls := { ut with ver := s.tls.ver, hp := s.tls.hp } } cr cs ch sh ca sa early
+      hinv.version hinv.ver hn hcr hcs hkl
+    obtain ⟨a0, aK, a1, a2, a3, a4, a5, a6, a7, a8, a9, a10, a11, a12, a13, a14, a15⟩ := a
+    generalize hat : afterTls (params H Pc kl) { s with tls := { ut with ver := s.tls.ver, hp := s.tls.hp } } = r at *
+    obtain ⟨s', e'⟩ := r
+    simp only at a0 aK a1 a2 a3 a4 a5 a6 a7 a8 a9 a10 a11 a12 a13 a14 a15 ⊢
+    subst a0
+    simp only
+    have hcore' : coreOf s'.tls = clearND ut := by
+      rw [a15, coreOf_with, hfix]
+    have hnd' : s'.tls.msgs.newData = false := by
+      have := congrArg (fun t => t.msgs.newData) hcore'
+      simpa [coreOf, clearND] using this
+    refine ⟨trivial, ⟨⟨a1.trans hinv.version, by rw [a12, a1]; exact hinv.ver, by rw [a2]; exact hinv.init,
+        by rw [a13]; exact hinv.hpSI, by rw [a14]; exact hinv.hpCI, by rw [a3]; exact hinv.ec, by rw [a4]; exact hinv.es,
+        by rw [a5]; exact hinv.lpc, by rw [a6]; exact hinv.lps, ?_⟩, ?_, ?_, by rw [a7]; exact hpc, by rw [a8]; exact hps,
+        by rw [a9]; exact hcc, by rw [a10]; exact hsc, ?_⟩, ?_, t3⟩
+    · intro o ho
+      simp only [List.mem_append, List.mem_singleton, a11] at ho
+      rcases ho with ho | ho
+      · exact hinv.out o ho
+      · exact hfo o ho
+    · simpa [coreOf] using hnd'
+    · simpa [coreOf] using hcore'
+    · intro hk
+      have := hcsel (hcl hk)
+      subst this
+      have := aK sel hsel
+      exact ⟨this.suite, this.hs, this.app, this.hpSH, this.hpCH, this.hpSA, this.hpCA⟩
+    · intro _ hni
+      have := hcsel hni
+      subst this
+      have := aK sel hsel
+      exact ⟨this.suite, this.hs, this.app, this.hpSH, this.hpCH, this.hpSA, this.hpCA⟩
+  · -- nothing new: the frame is buffered / a message without effect
+    have hn' : ut.msgs.newData = false := by simpa using hn
+    have hflag : (params H Pc kl).tlsNewData { ut with ver := s.tls.ver, hp := s.tls.hp } = false := hn'
+    simp only [afterTls, hflag, Bool.false_eq_true, if_false]
+    have hclr : clearND ut = ut := by
+      obtain ⟨fr, ms, ni, vv, hh⟩ := ut
+      obtain ⟨m1, m2, m3, m4, m5, m6, m7⟩ := ms
+      simp_all [clearND]
+    rw [hclr] at t3 ⊢
+    refine ⟨trivial, ⟨⟨hinv.version, hinv.ver, hinv.init, hinv.hpSI, hinv.hpCI, hinv.ec, hinv.es, hinv.lpc, hinv.lps, ?_⟩,
+      hn', by rw [coreOf_with, hfix], hpc, hps, hcc, hsc, ?_⟩, fun h => absurd h hn, t3⟩
+    · intro o ho
+      simp only [List.mem_append, List.mem_singleton] at ho
+      rcases ho with ho | ho
+      · exact hinv.out o ho
+      · exact hfo o ho
+    · intro hk
+      have := hkeyed hk
+      exact ⟨this.suite, this.hs, this.app, this.hpSH, this.hpCH, this.hpSA, this.hpCA⟩
+
+/-- frames a handshake-level packet may carry besides CRYPTO: anything but STREAM and NEW_CONNECTION_ID (RFC 9000 §12.4:
+    Initial and Handshake packets carry PADDING, PING, ACK, CRYPTO, CONNECTION_CLOSE only) -/
+def hsFrameP (f : Frame.Parsed) : Bool :=
+  match f with
+  | .stream .. => false
+  | .newConnectionId .. => false
+  | _ => true
+
+/-- the CRYPTO inputs `handle_frame` hands to the TLS parser for the frames of packet `p`, in order -/
+def cryptoInsP (p : Pkt) (fs : List Frame.Parsed) : List CryptoIn :=
+  fs.filterMap fun f => match f with | .crypto _ off len data => some (cryptoIn p off len data) | _ => none
+
+/-- the parser part after a list of CRYPTO inputs -/
+def pfold (t : Tls) (cs : List CryptoIn) : Tls := cs.foldl (fun t c => clearND (tlsUpdate t c).1) t
+
+/-- did one of them complete a hello (`new_data`)? -/
+def pfired : Tls → List CryptoIn → Bool
+  | _, [] => false
+  | t, c :: rest => (tlsUpdate t c).1.msgs.newData || pfired (clearND (tlsUpdate t c).1) rest
+
+theorem handleFrames_hs (kl : List Keylog.Key) (dcid0 cr csel ch sh ca sa : Bytes) (early : Option Bytes) (sel : SuiteSel)
+    (hsel : selectSuite csel = some sel) (hkl : KeylogHas kl cr ch sh ca sa early)
+    (keyed : Bool) (p : Pkt) (fs : List Frame.Parsed)
+    (hcl : keyed = true → ¬ (p.isServer = false ∧ p.ptype = .initial) ∨ cryptoInsP p fs = [])
+    (hok : ∀ f ∈ fs, hsFrameP f = true) (rest : List CryptoIn)
+    (s : St Tls) (tc ts : PnTab) (cc sc : List Bytes) (core : Tls)
+    (hst : HsSt H dcid0 sel ch sh ca sa keyed s tc ts cc sc core)
+    (htr : PTrace cr csel core (cryptoInsP p fs ++ rest)) :
+    (handleFrames (params H Pc kl) s p fs).2 = none ∧
+    HsSt H dcid0 sel ch sh ca sa keyed (handleFrames (params H Pc kl) s p fs).1 tc ts cc sc
+      (pfold core (cryptoInsP p fs)) ∧
+    (pfired core (cryptoInsP p fs) = true → ¬ (p.isServer = false ∧ p.ptype = .initial) →
+      Keyed H sel ch sh ca sa (handleFrames (params H Pc kl) s p fs).1) ∧
+    PTrace cr csel (pfold core (cryptoInsP p fs)) rest := by
+  induction fs generalizing s core keyed with
+  | nil => exact ⟨rfl, hst, by simp [pfired, cryptoInsP], htr⟩
+  | cons f fs ih =>
+    have hf := hok f (List.mem_cons_self ..)
+    have hrest := fun g hg => hok g (List.mem_cons_of_mem _ hg)
+    by_cases hc : isCryptoP f = true
+    · -- CRYPTO
+      cases f <;> simp [isCryptoP] at hc
+      rename_i l off len data
+      have hins : cryptoInsP p (.crypto l off len data :: fs) = cryptoIn p off len data :: cryptoInsP p fs := by
+        simp [cryptoInsP]
+      have hni' : keyed = true → ¬ (p.isServer = false ∧ p.ptype = .initial) :=
+        fun hk => (hcl hk).resolve_right (by rw [hins]; simp)
+      rw [hins] at htr ⊢
+      obtain ⟨b1, b2, b3, b4⟩ := handleCrypto_hs H Pc kl dcid0 cr csel ch sh ca sa early sel hsel hkl keyed s tc ts cc sc
+        core hst p (.crypto l off len data) rfl (cryptoIn p off len data) (cryptoInsP p fs ++ rest) htr
+        (by simpa [cryptoIn] using hni')
+      have hstep : handleFrame (params H Pc kl) s p (.crypto l off len data) =
+          handleCrypto (params H Pc kl) s p (.crypto l off len data) (cryptoIn p off len data) := rfl
+      unfold handleFrames
+      rw [hstep]
+      generalize hr : handleCrypto (params H Pc kl) s p (.crypto l off len data) (cryptoIn p off len data) = r at b1 b2 b3
+      obtain ⟨s1, e1⟩ := r
+      simp only at b1 b2 b3 ⊢
+      subst b1
+      simp only
+      obtain ⟨i1, i2, i3, i4⟩ := ih keyed (fun hk => Or.inl (hni' hk)) hrest s1 _ b2 b4
+      refine ⟨i1, i2, ?_, i4⟩
+      · intro hfire hni
+        simp only [pfired, Bool.or_eq_true] at hfire
+        by_cases hlater : pfired (clearND (tlsUpdate core (cryptoIn p off len data)).1) (cryptoInsP p fs) = true
+        · exact i3 hlater hni
+        · have h1 : (tlsUpdate core (cryptoIn p off len data)).1.msgs.newData = true := by
+            rcases hfire with h | h
+            · exact h
+            · exact absurd h hlater
+          -- the keys installed by this frame survive the later (quiet) frames: use the `keyed` flag of a stronger state
+          have hk1 := b3 h1 (by simpa [cryptoIn] using hni)
+          have b2' : HsSt H dcid0 sel ch sh ca sa true s1 tc ts cc sc (clearND (tlsUpdate core (cryptoIn p off len data)).1) :=
+            ⟨b2.inv, b2.nd, b2.core, b2.pc, b2.ps, b2.cc, b2.sc, fun _ => hk1⟩
+          exact ((ih true (fun _ => Or.inl hni) hrest s1 _ b2' b4).2.1.keyed) rfl
+    · -- an inert frame
+      have hins : cryptoInsP p (f :: fs) = cryptoInsP p fs := by
+        cases f <;> simp [isCryptoP] at hc <;> simp [cryptoInsP]
+      have hstep : handleFrame (params H Pc kl) s p f = (s, none) := by
+        cases f <;> simp [isCryptoP] at hc <;> simp [hsFrameP] at hf <;> rfl
+      rw [hins] at htr hcl ⊢
+      unfold handleFrames
+      rw [hstep]
+      exact ih keyed hcl hrest s core hst htr
+
+end HsFrames
+
+/-! ### one handshake-level packet -/
+
+section HsPacket
+variable (H : Crypto.Prims) (Pc : Cipher.Prims)
+
+/-- the CRYPTO inputs of a sender's packet, in frame order -/
+def cryptoIns (x : SPkt) : List CryptoIn :=
+  x.frames.filterMap fun f => match f with
+    | .crypto off _ data => some ⟨x.srv, x.level.ptype, off.val, data.length, data⟩
+    | _ => none
+
+/-- RFC 9000 §12.4 for Initial and Handshake packets -/
+def hsFrameQ (f : QFrame) : Bool :=
+  match f with
+  | .stream .. => false
+  | .newConnectionId .. => false
+  | _ => true
+
+theorem hsFrameP_toParsed (f : QFrame) : hsFrameP f.toParsed = hsFrameQ f := by cases f <;> rfl
+
+theorem normalize_hsFrame (fs : List QFrame) (h : ∀ f ∈ fs, hsFrameQ f = true) : ∀ f ∈ normalize fs, hsFrameQ f = true := by
+  induction fs with
+  | nil => simp [normalize]
+  | cons a rest ih =>
+    have ih' := ih (fun g hg => h g (List.mem_cons_of_mem _ hg))
+    have ha := h a (List.mem_cons_self ..)
+    cases a <;> simp only [normalize] <;> try (intro f hf; rcases List.mem_cons.mp hf with rfl | hf; exact ha; exact ih' f hf)
+    split
+    · rename_i b r heq
+      rw [heq] at ih'
+      intro f hf
+      rcases List.mem_cons.mp hf with rfl | hf
+      · rfl
+      · exact ih' f (List.mem_cons_of_mem _ hf)
+    · intro f hf
+      rcases List.mem_cons.mp hf with rfl | hf
+      · rfl
+      · exact ih' f hf
+
+theorem cryptoIns_eq (L : Seal) (alg : Alg) (k : DirKeys) (x : SPkt) (hne : x.level ≠ .oneRtt) :
+    cryptoInsP (emit L alg k x) ((normalize x.frames).map QFrame.toParsed) = cryptoIns x := by
+  have hsrv : (emit L alg k x).isServer = x.srv := by simp [emit, hne]
+  have hpt : (emit L alg k x).ptype = x.level.ptype := by simp [emit, hne]
+  unfold cryptoIns cryptoInsP
+  generalize emit L alg k x = p at hsrv hpt
+  induction x.frames with
+  | nil => rfl
+  | cons f rest ih =>
+    by_cases hp : f.isPadding = true
+    · cases f <;> simp [QFrame.isPadding] at hp
+      rename_i a
+      rcases Lemmas.QuicFrameSeq.normalize_pad_cases a rest with ⟨h0, h1⟩ | ⟨b, r, h0, h1⟩ | ⟨g, r, h0, _, h1⟩
+      · rw [h1]; rw [h0] at ih; simp [QFrame.toParsed] at ih ⊢; exact ih
+      · rw [h1]; rw [h0] at ih; simp [QFrame.toParsed] at ih ⊢; exact ih
+      · rw [h1]; rw [h0] at ih; simp [QFrame.toParsed] at ih ⊢; exact ih
+    · rw [Lemmas.QuicFrameSeq.normalize_nonpad f rest (by simpa using hp)]
+      cases f <;> simp [QFrame.toParsed, List.filterMap_cons, cryptoIn, hsrv, hpt] at ih ⊢ <;> exact ih
+
+/-- the decryptor of a handshake-level packet's encryption level, and the sender's key in it -/
+def lvlDec (dcid0 : Bytes) (sel : SuiteSel) (sh ch : Bytes) (lv : Level) : Dec :=
+  if lv = .initial then initDec H dcid0 else hsDec H sel sh ch
+
+def lvlKey (dcid0 : Bytes) (sel : SuiteSel) (sh ch : Bytes) (lv : Level) (srv : Bool) : DirKeys :=
+  if srv then ((lvlDec H dcid0 sel sh ch lv).server.getD default) else (lvlDec H dcid0 sel sh ch lv).client
+
+/-- RFC 9000 §7.2: an Initial packet teaches the observer both connection IDs -/
+def learn (cc sc : List Bytes) (x : SPkt) : List Bytes × List Bytes :=
+  if x.level = .initial then
+    (if x.srv then (issue cc [x.dcid], issue sc [x.scid]) else (issue cc [x.scid], issue sc [x.dcid]))
+  else (cc, sc)
+
+theorem hs_packet_step (hl : H.Lawful) (kl : List Keylog.Key) (L : SealLaws Pc) (dcid0 cr csel ch sh ca sa : Bytes)
+    (early : Option Bytes) (sel : SuiteSel) (hsel : selectSuite csel = some sel) (hkl : KeylogHas kl cr ch sh ca sa early)
+    (keyed : Bool) (x : SPkt) (hlv : x.level = .initial ∨ (x.level = .handshake ∧ keyed = true))
+    (hcl : keyed = true → ¬ (x.srv = false ∧ x.level = .initial) ∨ cryptoIns x = [])
+    (hfr : ∀ f ∈ x.frames, hsFrameQ f = true) (hwf : WellFormedSeq x.frames) (rest : List CryptoIn)
+    (s : St Tls) (tc ts : PnTab) (cc sc : List Bytes) (core : Tls)
+    (hst : HsSt H dcid0 sel ch sh ca sa keyed s tc ts cc sc core)
+    (hpn : PnLenOk ((if x.srv then ts else tc).get (spaceOf x.level)) x.pn x.pnLen)
+    (htr : PTrace cr csel core (cryptoIns x ++ rest)) :
+    let p := emit L.aeadSeal (lvlDec H dcid0 sel sh ch x.level).alg (lvlKey H dcid0 sel sh ch x.level x.srv) x
+    let r := stepPkt (params H Pc kl) s p
+    r.escaped = none ∧ r.caught = none ∧
+    HsSt H dcid0 sel ch sh ca sa keyed r.st
+      (if x.srv then tc else bump tc (spaceOf x.level) x.pn) (if x.srv then bump ts (spaceOf x.level) x.pn else ts)
+      (learn cc sc x).1 (learn cc sc x).2 (pfold core (cryptoIns x)) ∧
+    (pfired core (cryptoIns x) = true → ¬ (x.srv = false ∧ x.level = .initial) → Keyed H sel ch sh ca sa r.st) ∧
+    PTrace cr csel (pfold core (cryptoIns x)) rest := by
+  intro p r
+  have hne : x.level ≠ .oneRtt := by rcases hlv with h | ⟨h, _⟩ <;> simp [h]
+  have hlaw256 : H.sha256.Lawful := hl.sha256
+  have hlawS : (hashOf H sel.hash).Lawful := by cases sel.hash <;> simp [hashOf, hl.sha256, hl.sha384]
+  have hcases : (sel.alg = .aesgcm ∧ sel.keyLen = 16) ∨ (sel.alg = .aesgcm ∧ sel.keyLen = 32) ∨
+      (sel.alg = .chachaPoly ∧ sel.keyLen = 32) ∨ (sel.alg = .aesccm ∧ sel.keyLen = 16) := by
+    unfold selectSuite at hsel
+    repeat' split at hsel
+    all_goals first
+      | (cases hsel; simp)
+      | (simp at hsel)
+  have hk255 : sel.keyLen ≤ 255 := by rcases hcases with h | h | h | h <;> omega
+  -- the decryptor of the level is installed and holds the sender's key
+  have hdec : longDecryptor s x.level.ptype = .ok (some (lvlDec H dcid0 sel sh ch x.level)) := by
+    rcases hlv with h | ⟨h, hk⟩
+    · simp [h, Level.ptype, longDecryptor, hst.inv.init, lvlDec]
+    · simp [h, Level.ptype, longDecryptor, (hst.keyed hk).hs, lvlDec]
+  have hdir : (if x.srv then (lvlDec H dcid0 sel sh ch x.level).server else some (lvlDec H dcid0 sel sh ch x.level).client) =
+      some (lvlKey H dcid0 sel sh ch x.level x.srv) := by
+    unfold lvlKey lvlDec
+    rcases hlv with h | ⟨h, _⟩ <;> cases x.srv <;> simp [h, initDec, hsDec]
+  have haead : AeadOk (lvlDec H dcid0 sel sh ch x.level).alg (lvlKey H dcid0 sel sh ch x.level x.srv).key.length
+      (lvlKey H dcid0 sel sh ch x.level x.srv).iv.length 16 ∧ 8 ≤ (lvlKey H dcid0 sel sh ch x.level x.srv).iv.length := by
+    unfold lvlKey lvlDec
+    rcases hlv with h | ⟨h, _⟩
+    · cases x.srv <;>
+        simp [h, initDec, quicInitialServerKeys, quicInitialClientKeys, quicPacketKeys, quicKey_length _ hlaw256,
+          quicIv_length _ hlaw256] <;> decide
+    · cases x.srv <;> simp [h, hsDec, quicKey_length _ hlawS _ _ hk255, quicIv_length _ hlawS] <;>
+        (rcases hcases with ⟨a, b⟩ | ⟨a, b⟩ | ⟨a, b⟩ | ⟨a, b⟩ <;> rw [a, b] <;> decide)
+  have hlarge : pnLargest s x.srv (spaceOf x.level) = (if x.srv then ts else tc).get (spaceOf x.level) := by
+    cases x.srv <;> simp [pnLargest, hst.pc, hst.ps]
+  have hstep := step_long_eq (params H Pc kl) L x _ _ s hne hdec hdir haead.1 haead.2 (by rw [hlarge]; exact hpn) hwf
+  simp only at hstep
+  rw [hlarge] at hstep
+  -- the state `handle_frame` starts from
+  generalize hs2 : pnStore s x.srv (spaceOf x.level) (max ((if x.srv then ts else tc).get (spaceOf x.level)) x.pn) = s2 at hstep
+  have hst2 : HsSt H dcid0 sel ch sh ca sa keyed s2 (if x.srv then tc else bump tc (spaceOf x.level) x.pn)
+      (if x.srv then bump ts (spaceOf x.level) x.pn else ts) cc sc core := by
+    subst hs2
+    obtain ⟨i, nd, co, pc, ps, c1, c2, ky⟩ := hst
+    cases hsrv : x.srv <;> simp only [pnStore, hsrv, Bool.false_eq_true, if_false, if_true]
+    · exact ⟨⟨i.version, i.ver, i.init, i.hpSI, i.hpCI, i.ec, i.es, i.lpc, i.lps, i.out⟩, nd, co, by simp [bump, pc], ps, c1, c2,
+        fun hk => let q := ky hk; ⟨q.suite, q.hs, q.app, q.hpSH, q.hpCH, q.hpSA, q.hpCA⟩⟩
+    · exact ⟨⟨i.version, i.ver, i.init, i.hpSI, i.hpCI, i.ec, i.es, i.lpc, i.lps, i.out⟩, nd, co, pc, by simp [bump, ps], c1, c2,
+        fun hk => let q := ky hk; ⟨q.suite, q.hs, q.app, q.hpSH, q.hpCH, q.hpSA, q.hpCA⟩⟩
+  have hins := cryptoIns_eq L.aeadSeal (lvlDec H dcid0 sel sh ch x.level).alg (lvlKey H dcid0 sel sh ch x.level x.srv) x hne
+  have hpsrv : p.isServer = x.srv := by simp [p, emit, hne]
+  have hppt : p.ptype = x.level.ptype := by simp [p, emit, hne]
+  have hci : (p.isServer = false ∧ p.ptype = .initial) ↔ (x.srv = false ∧ x.level = .initial) := by
+    rw [hpsrv, hppt]
+    rcases hlv with h | ⟨h, _⟩ <;> simp [h, Level.ptype]
+  obtain ⟨f1, f2, f3, f4⟩ := handleFrames_hs H Pc kl dcid0 cr csel ch sh ca sa early sel hsel hkl keyed p
+    ((normalize x.frames).map QFrame.toParsed)
+    (by intro hk; rcases hcl hk with h | h
+        · exact Or.inl (by rw [hci]; exact h)
+        · exact Or.inr (by rw [hins]; exact h))
+    (by intro g hg
+        obtain ⟨f, hf, rfl⟩ := List.mem_map.mp hg
+        rw [hsFrameP_toParsed]; exact normalize_hsFrame _ hfr f hf)
+    rest s2 _ _ cc sc core hst2 (by rw [hins]; exact htr)
+  rw [hins] at f2 f3 f4
+  have hr : r = { st := postLevel x.level (handleFrames (params H Pc kl) s2 p ((normalize x.frames).map QFrame.toParsed)).1 p,
+                  caught := (handleFrames (params H Pc kl) s2 p ((normalize x.frames).map QFrame.toParsed)).2,
+                  escaped := none } := hstep
+  rw [hr]
+  refine ⟨rfl, f1, ?_, ?_, f4⟩
+  · -- CID learning of an Initial
+    unfold postLevel learn
+    by_cases hi : x.level = .initial
+    · simp only [hi, if_true]
+      obtain ⟨i, nd, co, pc, ps, c1, c2, ky⟩ := f2
+      have hpd : p.dcid = x.dcid := by simp [p, emit, hne]
+      have hps2 : p.scid = some x.scid := by simp [p, emit, hne]
+      unfold learnCids
+      rw [hpsrv]
+      cases hsrv : x.srv <;> simp only [hsrv, hi, Bool.false_eq_true, if_false, if_true] at pc ps ⊢
+      · exact ⟨⟨i.version, i.ver, i.init, i.hpSI, i.hpCI, i.ec, i.es, i.lpc, i.lps, i.out⟩, nd, co, pc, ps,
+          by simp [hps2, optAdd, c1, issue_eq], by simp [hpd, c2, issue_eq],
+          fun hk => let q := ky hk; ⟨q.suite, q.hs, q.app, q.hpSH, q.hpCH, q.hpSA, q.hpCA⟩⟩
+      · exact ⟨⟨i.version, i.ver, i.init, i.hpSI, i.hpCI, i.ec, i.es, i.lpc, i.lps, i.out⟩, nd, co, pc, ps,
+          by simp [hpd, c1, issue_eq], by simp [hps2, optAdd, c2, issue_eq],
+          fun hk => let q := ky hk; ⟨q.suite, q.hs, q.app, q.hpSH, q.hpCH, q.hpSA, q.hpCA⟩⟩
+    · simp only [hi, if_false]; exact f2
+  · intro hfire hni
+    have hk := f3 hfire (by rw [hci]; exact hni)
+    unfold postLevel
+    split
+    · unfold learnCids; split <;> exact ⟨hk.suite, hk.hs, hk.app, hk.hpSH, hk.hpCH, hk.hpSA, hk.hpCA⟩
+    · exact hk
+
+end HsPacket
+
 end TLX.Props.C02Capstone
